@@ -398,7 +398,9 @@ theorem readBlocks_safe (csize : Int) : ∀ (fuel : Nat) (buf : Bytes) (sum : Na
       · split
         · apply Safe.readByte
           intro o
-          cases o <;> simp only <;> split <;> (first | safe_step | (split <;> safe_step))
+          cases o with
+          | none => safe_step
+          | some x => simp only; split <;> (first | safe_step | (split <;> safe_step))
         · safe_step
 
 theorem readCompressed_safe (fuel : Nat) (p : Proposal) : Safe (Allowed b) InboundOK T (readCompressed fuel p) := by
